@@ -20,7 +20,7 @@ class Variable(CFGObject):  # pylint: disable=too-few-public-methods
 
     def __eq__(self, other):
         if isinstance(other, CFGObject):
-            return self._value == other.value
+            return isinstance(other, Variable) and self._value == other.value
         return self._value == other
 
     def __str__(self):
